@@ -28,10 +28,17 @@ type T struct {
 type Mid struct {
 	In Inner
 	P  *Inner
+	PM *Mid2 // a pointer field of a struct-valued map entry with one more struct level below it
+}
+
+// Mid2 gives the chain MM.k.PM.Q.S: map entry (struct) -> pointer field -> struct field -> leaf.
+type Mid2 struct {
+	Q Inner
 }
 
 // SM: maps whose values are structs, struct pointers, structs holding structs. Paths into it are walked to
-// length 4 so that a field of a struct inside a map entry (MM.k.In.S) is reachable.
+// length 4 so that a field of a struct inside a map entry (MM.k.In.S) is reachable, and along the one chain
+// MM.k.PM.Q.S to length 5 (see keepPath).
 type SM struct {
 	MI map[string]Inner
 	MP map[string]*Inner
@@ -49,7 +56,35 @@ var rootNames = []string{"T", "PT", "MSA", "MSS", "ANY"}
 // allRoots adds the struct-valued-map family; it takes part in the single mappings and in its own sets.
 var allRoots = []string{"T", "PT", "MSA", "MSS", "ANY", "SM"}
 
-const smLen = 4
+const smLen = 5 // 4 everywhere, 5 only along MM.k.PM.Q.S (keepPath)
+
+// keepPath thins the walk of SM: the field PM is only followed below MM.k and only to PM.Q.S, and nothing
+// else reaches length 5. This keeps the family small: the chain exists to put a pointer field of a struct
+// entry above one more struct level, once.
+func keepPath(root reflect.Type, path []string) bool {
+	if root != rootTypes["SM"] {
+		return true
+	}
+	pm := -1
+	for i, s := range path {
+		if s == "PM" {
+			pm = i
+		}
+	}
+	if pm < 0 {
+		return len(path) <= 4
+	}
+	want := []string{"MM", "k", "PM", "Q", "S"}
+	if len(path) > len(want) {
+		return false
+	}
+	for i, s := range path {
+		if s != want[i] {
+			return false
+		}
+	}
+	return true
+}
 
 // lenFor: how deep paths of a root type are walked.
 func lenFor(typ string, maxLen int) int {
@@ -181,7 +216,7 @@ func smFull() SM {
 	return SM{
 		MI: map[string]Inner{"k": {S: "iks", N: 1, M: map[string]any{"k": "ikm", "j": "ijm"}}, "j": {S: "ijs", N: 2}},
 		MP: map[string]*Inner{"k": {S: "pks", N: 3, M: map[string]any{"k": "pkm"}}, "j": {S: "pjs", N: 4}},
-		MM: map[string]Mid{"k": {In: Inner{S: "mkis", N: 5, M: map[string]any{"k": "mkim"}}, P: &Inner{S: "mkps", N: 6}}, "j": {In: Inner{S: "mjis", N: 7}}},
+		MM: map[string]Mid{"k": {In: Inner{S: "mkis", N: 5, M: map[string]any{"k": "mkim"}}, P: &Inner{S: "mkps", N: 6}, PM: &Mid2{Q: Inner{S: "mkqs", N: 8}}}, "j": {In: Inner{S: "mjis", N: 7}}},
 	}
 }
 
